@@ -12,8 +12,11 @@ class E2E(Suite):
         r = rng.random()
         if r < 0.3:
             return "ok"
-        if r < 0.5:
+        if r < 0.45:
             return "d%d" % rng.choice([5, 20, 60, 150, 400])
+        if r < 0.5:
+            # slower than the retransmission timeout: answered while retransmissions are already out
+            return "d%d" % rng.choice([900, 1500, 2500])
         if r < 0.6:
             return rng.choice(["dup", "d30-dup"])
         if r < 0.7:
@@ -45,6 +48,10 @@ class E2E(Suite):
         sizes = [24, 48] if tier == "quick" else [64, 128, 256, 256]
         i = 0
         total = 0
+        if tier != "quick":
+            # a quiet period longer than the upstream connection's idle timeout, then TCP queries again: the re-opened
+            # connection must serve them (its watchdogs start afresh)
+            out.append("e2e wait=22000 gap=126000 q=6:t:-:ok,4:t:-:d20 then=6:t:-:ok,4:t:-:ok,d4:t:-:d20,6:u:-:tc")
         while total < n:
             sz = sizes[i % len(sizes)]
             out.append(self.gen_one(rng, sz, silent=(i == 0 or tier != "quick")))
@@ -55,7 +62,7 @@ class E2E(Suite):
     def nontrivial(self, inp, obs):
         return True
 
-    case_seconds = 70         # a batch may wait a minute for a reply that never comes
+    case_seconds = 200         # a batch may wait a minute for a reply that never comes
     shrink_batch = 6          # every candidate is a real exchange of seconds: few at a time
 
     def shrink_candidates(self, inp):
